@@ -1397,6 +1397,7 @@ func judgeRerun(ref *refRun, d int, C, R *State, res *drvResult, victim []DrvOp,
 			add("rerun-extra-tag", "after repeating the interrupted operation(s) tag %q -> %s exists, the uninterrupted run has no such tag", t, short(R.Tags[t]))
 		}
 	}
+	lostUntagged := map[string]bool{}
 	for _, dg := range sortedKeys(Sm.Untagged) {
 		if R.Untagged[dg] {
 			continue
@@ -1407,7 +1408,15 @@ func judgeRerun(ref *refRun, d int, C, R *State, res *drvResult, victim []DrvOp,
 		}
 		if !tagged {
 			add("rerun-untagged-entry-lost", "after repeating the interrupted operation(s) the index entry for %s (no tag) is missing", short(dg))
+			lostUntagged[dg] = true
 		}
+	}
+	// Narrow attribution (3): an image whose untagged entry the repeated copy never wrote is unreachable from
+	// index.json, so a Close later in the repeated suffix collects it: its files missing afterwards are a consequence
+	// of rerun-untagged-entry-lost in THIS execution, not a separate behaviour.
+	viaLostEntry := map[string]bool{}
+	for _, w := range sortedKeys(lostUntagged) {
+		Sm.Reach(w, viaLostEntry)
 	}
 	// Narrow attribution: a referrer that the repeated copy left unlisted (manifest present in
 	// the crashed state, entry absent from its subject's list after the re-run) is unreachable
@@ -1486,6 +1495,16 @@ func judgeRerun(ref *refRun, d int, C, R *State, res *drvResult, victim []DrvOp,
 				if !reachR[dg] {
 					add("rerun-referrer-not-listed", "consequence in the same execution: blobs/%s (present in the uninterrupted run) belongs to the unlisted referrer(s) %v, is not reachable from index.json after the re-run, and was garbage-collected by the Close of the repeated suffix",
 						strings.Replace(dg, ":", "/", 1), sortedKeys(unlisted))
+					continue
+				}
+			}
+			if _, present := R.Files[dg]; !present && closeInSuffix && viaLostEntry[dg] {
+				if reachR == nil {
+					reachR = R.ReachIndex()
+				}
+				if !reachR[dg] {
+					add("rerun-untagged-entry-lost", "consequence in the same execution: blobs/%s (present in the uninterrupted run) belongs to the image(s) %v whose untagged index entry the repeated operation never wrote, is not reachable from index.json after the re-run, and was garbage-collected by the Close of the repeated suffix",
+						strings.Replace(dg, ":", "/", 1), sortedKeys(lostUntagged))
 					continue
 				}
 			}
